@@ -354,8 +354,9 @@ def _work_chunk(pid, batch_seed, indices, tier, want_digests, per_run_timeout, m
             if pre is not None and pre in known and pre in out["violations"]:
                 out["violations"][pre]["count"] += 1
                 continue
-            if not (pre is not None and pre in known) and not os.path.exists(stop_flag_path()):
-                # very likely an unlisted violation: tell the other workers to wind down while this one is minimised
+            if not known and not os.path.exists(stop_flag_path()):
+                # no findings are listed for this property, so this is an unlisted violation: tell the other workers to wind
+                # down while this one is minimised (with listed findings only the parent can tell, after minimisation)
                 try:
                     open(stop_flag_path(), "w").close()
                 except OSError:
@@ -689,7 +690,9 @@ def run_digests(pid, tier, batch_seed, lo, hi):
     if hasattr(engine, "setup_worker"):
         engine.setup_worker()
     out = {}
-    for i in range(lo, hi):
+    # REVERSE order: a run whose outcome depends on what the same process executed before it (state leaking from one run
+    # into the next) then shows up as a digest mismatch against the pool workers, which go through the indices upwards
+    for i in range(hi - 1, lo - 1, -1):
         trace = make_trace(engine, batch_seed, i, tier)
         res, err = safe_execute(engine, trace)
         out[str(i)] = res.get("log", "") if res else "ERR"
